@@ -29,14 +29,17 @@ OPS = [
     ("mark", "npm", "nobody"),
     ("open",),
     # a long version list (a package with hundreds of releases): the whole list is ONE transaction, whatever its length
-    ("replace", "npm", "big") + tuple(f"1.{i // 50}.{i % 50}" for i in range(250)),
+    # (1300: longer than any round batch size - 100, 128, 250, 256, 500, 512, 1000, 1024 - somebody might commit by)
+    ("replace", "npm", "big") + tuple(f"1.{i // 50}.{i % 50}" for i in range(1300)),
 ]
 SENT = 99999          # a statement point no operation reaches: the operation completes
 
 
 def points_of(op):
     if len(op) > 100:
-        return [1, 2, 3, 50, 100, 101, 102, 103, 150, 200, 201, 202, 203, 251, 252, 253]
+        # just before / after every round number of inserted rows, and around the end of the list
+        return sorted(set([1, 2, 3] + [b + k for b in (50, 100, 128, 200, 250, 256, 500, 512, 1000, 1024) for k in (0, 1, 2, 3, 4)]
+                          + [len(op) - 3 + k for k in (0, 1, 2, 3, 4)]))
     return list(range(1, 12))
 
 
